@@ -227,3 +227,64 @@ pub mod upstream {
         };
     }
 }
+
+/// spec 6: tag reuse - the tags "TIMING", "MASK" and "LIMITS" occur below two different parents ("CAN", "ETH") with
+/// the same layout and the same member names.  The occurrences of "TIMING" and "LIMITS" differ one reference level down
+/// only: the referenced enum (CanMode / EthMode), the type of the tagged member "MASK" (whose integer is ulong / uint64,
+/// a difference at the first level), the referenced struct (Range16 of int / Range32 of long)
+pub mod reuse {
+    a2lmacros::a2ml_specification! {
+        <Reuse>
+
+        enum CanMode {
+            "CLASSIC" = 0,
+            "FD" = 1
+        };
+
+        enum EthMode {
+            "UDP" = 0,
+            "TCP" = 1
+        };
+
+        struct Range16 {
+            int lo;
+            int hi;
+        };
+
+        struct Range32 {
+            long lo;
+            long hi;
+        };
+
+        block "IF_DATA" taggedunion {
+            block "CAN" struct {
+                uint node;
+                taggedstruct {
+                    block "TIMING" struct {
+                        enum CanMode mode;
+                        taggedstruct {
+                            "MASK" ulong mask;
+                        };
+                    };
+                    block "LIMITS" struct {
+                        struct Range16 r;
+                    };
+                };
+            };
+            block "ETH" struct {
+                uint node;
+                taggedstruct {
+                    block "TIMING" struct {
+                        enum EthMode mode;
+                        taggedstruct {
+                            "MASK" uint64 mask;
+                        };
+                    };
+                    block "LIMITS" struct {
+                        struct Range32 r;
+                    };
+                };
+            };
+        };
+    }
+}
